@@ -898,6 +898,12 @@ Section FloatKernel.
     | [] => false
     | v0 :: r => forallb (py_eq e v0) r
     end.
+  (* proposed repair C06-4: compare the stored bytes instead of the unpacked values *)
+  Definition is_splat_bits (payloads : list Z) : bool :=
+    match payloads with
+    | [] => false
+    | p0 :: r => forallb (fun p => p =? p0) r
+    end.
 
   Definition print_elem (e : ety) (v : Z) : text :=
     match e with
@@ -937,12 +943,13 @@ Section FloatKernel.
   | DList (shape : list Z) (elems : list text).
 
   (* DenseIntOrFPElementsAttr.print_without_type (payloads = stored elements) *)
-  Definition print_dense (e : ety) (shape : list Z) (payloads : list Z) : res dense_text :=
+  Definition print_dense (splatfix : bool) (e : ety) (shape : list Z) (payloads : list Z) : res dense_text :=
     let vals := map (elem_value e) payloads in
     let len := Z.of_nat (List.length payloads) in
     let shape' := if shape_is_complete shape len then shape else [len] in
     if len =? 0 then Ok DEmpty
-    else if is_splat e vals then Ok (DSplat (print_elem e (hd 0 vals)))
+    else if (if splatfix then is_splat_bits payloads else is_splat e vals)
+         then Ok (DSplat (print_elem e (hd 0 vals)))
     else if 100 <? len then
       match elem_size e with
       | Ok sz => Ok (DHex (hex_of_bytes true (flat_map (le_bytes (Z.to_nat sz)) payloads)))
@@ -951,19 +958,20 @@ Section FloatKernel.
     else Ok (DList shape' (map (print_elem e) vals)).
 
   (* _parse_optional_bool_int_or_float on the tokens of one element (all tokens must be used) *)
-  Definition parse_elem (ts : list tok) : res pyval :=
+  Definition parse_elem (ts : list tok) : res (pyval * bool) :=
     let '(neg, ts1) := match ts with TMinus :: r => (true, r) | _ => (false, ts) end in
     match ts1 with
     | TBare t :: [] =>
         if neg then NoTok
-        else if text_eqb t (str "true") then Ok (VBool true)
-        else if text_eqb t (str "false") then Ok (VBool false) else NoTok
+        else if text_eqb t (str "true") then Ok (VBool true, false)
+        else if text_eqb t (str "false") then Ok (VBool false, false) else NoTok
     | TInt t :: [] =>
         match get_int_value t with
-        | Some v => Ok (VInt (if neg then - v else v))
+        (* second component: the element's span text starts with 0x / 0X (never after a '-') *)
+        | Some v => Ok (VInt (if neg then - v else v), is_hex_tok ts)
         | None => Raise E_VALUE
         end
-    | TFloat t :: [] => Ok (VFloat (if neg then f64_neg (scan t) else scan t))
+    | TFloat t :: [] => Ok (VFloat (if neg then f64_neg (scan t) else scan t), false)
     | _ => NoTok
     end.
 
@@ -987,9 +995,18 @@ Section FloatKernel.
     end.
 
   (* to_type followed by from_list's normalisation / packing: the stored element *)
-  Definition elem_payload (e : ety) (v : pyval) : res Z :=
+  Definition elem_payload (hexfix : bool) (e : ety) (vh : pyval * bool) : res Z :=
+    let '(v, ishex) := vh in
     match e with
-    | EF ty => match to_float v with Ok f => Ok (pack ty f) | NoTok => NoTok | Raise x => Raise x end
+    | EF ty =>
+        match v with
+        | VInt i =>
+            if hexfix && ishex then
+              (* proposed repair C06-2: a hexadecimal integer literal is the bit pattern of the float *)
+              if i <? 2 ^ (8 * fsize ty) then Ok (pack ty (unpack ty i)) else Raise E_PARSE
+            else match to_float v with Ok f => Ok (pack ty f) | NoTok => NoTok | Raise x => Raise x end
+        | _ => match to_float v with Ok f => Ok (pack ty f) | NoTok => NoTok | Raise x => Raise x end
+        end
     | EI (TInteger w s) =>
         match to_int v (match s with Unsigned => false | _ => true end) (w =? 1) with
         | Ok z => match normalized_value s w z with Some z' => Ok z' | None => Raise E_VALUE end
@@ -1002,11 +1019,11 @@ Section FloatKernel.
         end
     end.
 
-  Definition parse_elem_text (e : ety) (t : text) : res Z :=
+  Definition parse_elem_text (hexfix : bool) (e : ety) (t : text) : res Z :=
     match lex false t with
     | Ok ts =>
         match parse_elem ts with
-        | Ok v => elem_payload e v
+        | Ok v => elem_payload hexfix e v
         | NoTok => Raise E_PARSE       (* "Expected either a float, integer, or complex literal" *)
         | Raise x => Raise x
         end
@@ -1049,7 +1066,7 @@ Section FloatKernel.
     end.
 
   (* parse_dense_int_or_fp_elements_attr after the type is known *)
-  Definition parse_dense (e : ety) (type_shape : list Z) (d : dense_text) : res (list Z) :=
+  Definition parse_dense (hexfix : bool) (e : ety) (type_shape : list Z) (d : dense_text) : res (list Z) :=
     let num := prod type_shape in
     match d with
     | DEmpty => if num =? 0 then Ok [] else Raise E_PARSE
@@ -1067,20 +1084,21 @@ Section FloatKernel.
         | Some _, Raise x => Raise x
         end
     | DSplat t =>
-        match parse_elem_text e t with
+        match parse_elem_text hexfix e t with
         | Ok p => Ok (repeat p (Z.to_nat num))
         | NoTok => NoTok | Raise x => Raise x
         end
     | DList shape elems =>
-        match map_res (parse_elem_text e) elems with
+        match map_res (parse_elem_text hexfix e) elems with
         | Ok ps => if shape_eqb type_shape shape then Ok ps else Raise E_PARSE
         | NoTok => NoTok | Raise x => Raise x
         end
     end.
 
-  Definition dense_roundtrip (e : ety) (shape : list Z) (payloads : list Z) : res (list Z) :=
-    match print_dense e shape payloads with
-    | Ok d => parse_dense e shape d
+  Definition dense_roundtrip (hexfix splatfix : bool) (e : ety) (shape : list Z) (payloads : list Z)
+    : res (list Z) :=
+    match print_dense splatfix e shape payloads with
+    | Ok d => parse_dense hexfix e shape d
     | NoTok => NoTok
     | Raise x => Raise x
     end.
@@ -1092,7 +1110,7 @@ Section FloatKernel.
     map (fun p => print_elem e (elem_value e p)) payloads.
 
   (* one element of _parse_builtin_densearray_attr *)
-  Definition parse_array_elem (e : ety) (t : text) : res Z :=
+  Definition parse_array_elem (hexfix : bool) (e : ety) (t : text) : res Z :=
     match lex false t with
     | Ok ts =>
         match e with
@@ -1113,6 +1131,14 @@ Section FloatKernel.
             let '(neg, ts1) := match ts with TMinus :: r => (true, r) | _ => (false, ts) end in
             match ts1 with
             | TFloat b :: [] => Ok (pack ty (if neg then f64_neg (scan b) else scan b))
+            | TInt t :: [] =>
+                (* proposed repair C06-3: a hexadecimal integer literal is the bit pattern of the float *)
+                if hexfix && is_hex_tok ts then
+                  match get_int_value t with
+                  | Some i => if i <? 2 ^ (8 * fsize ty) then Ok (pack ty (unpack ty i)) else Raise E_PARSE
+                  | None => Raise E_VALUE
+                  end
+                else Raise E_PARSE
             | _ => Raise E_PARSE                     (* "Expected float literal" *)
             end
         end
@@ -1120,6 +1146,6 @@ Section FloatKernel.
     | Raise x => Raise x
     end.
 
-  Definition densearray_roundtrip (e : ety) (payloads : list Z) : res (list Z) :=
-    map_res (parse_array_elem e) (print_densearray e payloads).
+  Definition densearray_roundtrip (hexfix : bool) (e : ety) (payloads : list Z) : res (list Z) :=
+    map_res (parse_array_elem hexfix e) (print_densearray e payloads).
 End FloatKernel.
